@@ -58,9 +58,6 @@ def toLegacy (j : Json) : R Json := do
 def toYangOld (j : Json) : R Json := do
   return outcome (legacyToYangOld (← getReprs j) (← getJ (← fld j "doc")))
 
-def toLegacySorted (j : Json) : R Json := do
-  return outcome (yangToLegacySorted (← getReprs j) (← getJ (← fld j "doc")))
-
 def toLegacyOld (j : Json) : R Json := do
   return outcome (yangToLegacyOld (← getReprs j) (← getJ (← fld j "doc")))
 
@@ -100,7 +97,7 @@ def modesH (j : Json) : R Json := do
   | .error e => return jObj [("error", jStr e)]
 
 def handlers : List (String × Handler) :=
-  [("c18.to_yang", toYang), ("c18.to_legacy", toLegacy), ("c18.to_legacy_old", toLegacyOld), ("c18.to_legacy_sorted", toLegacySorted), ("c18.to_yang_old", toYangOld),
+  [("c18.to_yang", toYang), ("c18.to_legacy", toLegacy), ("c18.to_legacy_old", toLegacyOld), ("c18.to_yang_old", toYangOld),
    ("c18.precision", precisionH), ("c18.fmt", fmtH), ("c18.parse", parseH),
    ("c18.aliases", aliasesH), ("c18.aliases_f4", aliasesF4H), ("c18.modes", modesH)]
 
